@@ -318,43 +318,63 @@ pub fn sdd_syntactic_vars(p: SddPtr) -> BTreeSet<usize> {
 
 /// structural isomorphism of two SDDs from different builders over the same vtree
 pub fn sdd_iso(a: SddPtr, b: SddPtr) -> bool {
-    fn go(a: SddPtr, b: SddPtr, m: &mut HashMap<SddKey, SddKey>, r: &mut HashMap<SddKey, SddKey>) -> bool {
-        match (a, b) {
-            (SddPtr::PtrTrue, SddPtr::PtrTrue) | (SddPtr::PtrFalse, SddPtr::PtrFalse) => true,
-            (SddPtr::Var(x, p), SddPtr::Var(y, q)) => x == y && p == q,
-            _ => {
-                let (Some(ka), Some(kb)) = (sdd_key(a), sdd_key(b)) else {
-                    return false;
-                };
-                if sdd_is_compl(a) != sdd_is_compl(b) {
-                    return false;
-                }
-                if std::mem::discriminant(&ka) != std::mem::discriminant(&kb) {
-                    return false;
-                }
-                match (m.get(&ka), r.get(&kb)) {
-                    (Some(&k2), Some(&k1)) => k2 == kb && k1 == ka,
-                    (None, None) => {
-                        if a.vtree().value() != b.vtree().value() {
-                            return false;
-                        }
-                        m.insert(ka, kb);
-                        r.insert(kb, ka);
-                        let ea = sdd_elements(a);
-                        let eb = sdd_elements(b);
-                        if ea.len() != eb.len() {
-                            return false;
-                        }
-                        // element order is canonical (sorted by the library's structural order) in a
-                        // compressing builder; compare position-wise
-                        ea.iter()
-                            .zip(eb.iter())
-                            .all(|((p1, s1), (p2, s2))| go(*p1, *p2, m, r) && go(*s1, *s2, m, r))
-                    }
-                    _ => false,
-                }
-            }
+    // Equivalence of two SDDs that may live in different builders over the same vtree: same function, decision
+    // nodes at the same vtree positions with the same number of elements, elements matched by the function of
+    // their primes, recursively. The ORDER in which a node stores its elements and WHICH of a node and its
+    // negation is the stored one (complement bit on the pointer vs negated subs) are representation choices
+    // that no property promises across builders, so neither is compared.
+    fn effective<'x>(p: SddPtr<'x>) -> Vec<(SddPtr<'x>, SddPtr<'x>, bool)> {
+        // (prime, sub, sub is to be read negated)
+        let neg = sdd_is_compl(p);
+        sdd_elements(p).into_iter().map(|(pr, su)| (pr, su, neg)).collect()
+    }
+    fn tt_neg(p: SddPtr, neg: bool, memo: &mut SddMemo) -> Tt {
+        let t = sdd_tt_m(p, memo);
+        if neg {
+            t.not()
+        } else {
+            t
         }
     }
-    go(a, b, &mut HashMap::new(), &mut HashMap::new())
+    #[allow(clippy::too_many_arguments)]
+    fn go(a: SddPtr, na: bool, b: SddPtr, nb: bool, memo: &mut SddMemo, seen: &mut HashMap<(SddKey, bool, SddKey, bool), bool>) -> bool {
+        if tt_neg(a, na, memo) != tt_neg(b, nb, memo) {
+            return false;
+        }
+        let (ia, ib) = (sdd_key(a).is_some(), sdd_key(b).is_some());
+        if ia != ib {
+            // a decision node on one side, a literal or constant of the same function on the other
+            return false;
+        }
+        if !ia {
+            return true;
+        }
+        let k = (sdd_key(a).unwrap(), na, sdd_key(b).unwrap(), nb);
+        if let Some(r) = seen.get(&k) {
+            return *r;
+        }
+        seen.insert(k, true);
+        let ok = (|| {
+            if a.vtree().value() != b.vtree().value() {
+                return false;
+            }
+            let (ea, eb) = (effective(a), effective(b));
+            if ea.len() != eb.len() {
+                return false;
+            }
+            for (p1, s1, n1) in ea.iter() {
+                let t1 = sdd_tt_m(*p1, memo);
+                let Some((p2, s2, n2)) = eb.iter().find(|(p2, _, _)| sdd_tt_m(*p2, memo) == t1) else {
+                    return false;
+                };
+                if !go(*p1, false, *p2, false, memo, seen) || !go(*s1, *n1 ^ na, *s2, *n2 ^ nb, memo, seen) {
+                    return false;
+                }
+            }
+            true
+        })();
+        seen.insert(k, ok);
+        ok
+    }
+    go(a, false, b, false, &mut HashMap::new(), &mut HashMap::new())
 }
